@@ -48,6 +48,9 @@
 #ifndef VH_DEFMODE
 #define VH_DEFMODE 0
 #endif
+#ifndef VH_CONSTCB
+#define VH_CONSTCB 0	// 1: guards, lifecycle, update-family and plan callbacks are declared const (the react family cannot be)
+#endif
 #ifndef VH_VIRT
 #define VH_VIRT 0		// 1: the callbacks of the injected classes are declared virtual (the state classes override them)
 #endif
@@ -797,21 +800,26 @@ template <typename TOwner> struct Visits { mutable unsigned visits = 0x5A5A5A00u
 	};																														\
 	template <typename B, typename T, int SI, int JI> struct L_##NAME<B, T, SI, JI, false> : B {};
 
-VH_LAYER(entryGuard,  1, 3, (typename B::GuardControl& c),				-1,		 )
-VH_LAYER(enter,		  2, 1, (typename B::PlanControl&  c),				-1,		 )
-VH_LAYER(reenter,	  3, 1, (typename B::PlanControl&  c),				-1,		 )
-VH_LAYER(preUpdate,	  4, 2, (typename B::FullControl&  c),				-1,		 )
-VH_LAYER(update,	  5, 2, (typename B::FullControl&  c),				-1,		 )
-VH_LAYER(postUpdate,  6, 2, (typename B::FullControl&  c),				-1,		 )
+#if VH_CONSTCB
+#define VH_CQ const
+#else
+#define VH_CQ
+#endif
+VH_LAYER(entryGuard,  1, 3, (typename B::GuardControl& c),				-1,		VH_CQ)
+VH_LAYER(enter,		  2, 1, (typename B::PlanControl&  c),				-1,		VH_CQ)
+VH_LAYER(reenter,	  3, 1, (typename B::PlanControl&  c),				-1,		VH_CQ)
+VH_LAYER(preUpdate,	  4, 2, (typename B::FullControl&  c),				-1,		VH_CQ)
+VH_LAYER(update,	  5, 2, (typename B::FullControl&  c),				-1,		VH_CQ)
+VH_LAYER(postUpdate,  6, 2, (typename B::FullControl&  c),				-1,		VH_CQ)
 VH_LAYER_EV(preReact,	  7, 2, const, FullControl,	 )
 VH_LAYER_EV(react,		  8, 2, const, FullControl,	 )
 VH_LAYER_EV(query,		  9, 0,		 , ConstControl, const)
 VH_LAYER_EV(postReact,	 10, 2, const, FullControl,	 )
-VH_LAYER(exitGuard,	 11, 3, (typename B::GuardControl& c),				-1,		 )
-VH_LAYER(exit,		 12, 1, (typename B::PlanControl&  c),				-1,		 )
+VH_LAYER(exitGuard,	 11, 3, (typename B::GuardControl& c),				-1,		VH_CQ)
+VH_LAYER(exit,		 12, 1, (typename B::PlanControl&  c),				-1,		VH_CQ)
 #if VH_PLANS
-VH_LAYER(planSucceeded, 13, 2, (typename B::FullControl& c),			-1,		 )
-VH_LAYER(planFailed,	14, 2, (typename B::FullControl& c),			-1,		 )
+VH_LAYER(planSucceeded, 13, 2, (typename B::FullControl& c),			-1,		VH_CQ)
+VH_LAYER(planFailed,	14, 2, (typename B::FullControl& c),			-1,		VH_CQ)
 #endif
 
 #define VH_ON(BIT) ((MASK >> BIT) & 1u) != 0
